@@ -3,7 +3,7 @@
 HOOK_COMMITS = []
 
 ENGINES = [
-    {"name": "vq-sim", "path": "harness/vq-sim", "serves_properties": ["C01", "C03", "C08", "C09", "C12"],
+    {"name": "vq-sim", "path": "harness/vq-sim", "serves_properties": ["C01", "C02", "C03", "C08", "C09", "C11", "C12"],
      "kind_free_text": "deterministic end-to-end simulation of real s2n-quic endpoints (bach executor, virtual clock) with five taps (network, cleartext TX/RX interceptor, event subscriber, congestion-controller proxy, application) feeding online property monitors"},
     {"name": "vq-wire", "path": "harness/vq-wire", "serves_properties": ["C05", "C08", "C14"],
      "kind_free_text": "independent RFC 9000 reference parser used as the other side of layout oracles and as the frame decoder of the taps"},
@@ -18,6 +18,10 @@ META = {
             "technique": "runtime monitoring: online byte-exact oracle at the application boundary over seeded fault-injected simulations",
             "text": "Every chunk any receiving application is handed is compared byte-for-byte with a position-keyed PRF stream, and every clean end of stream with the sender's finish offset, over ~1000 (quick) / ~32000 (thorough) seeded executions of the real endpoints under loss, duplication, reordering, corruption, truncation, MTU drop, tiny windows and hostile application interleavings. Held-on-observed-executions; library debug assertions stay active and a panic counts as a violation.",
             "note": _SIM_NOTE},
+    "C02": {"engine": "vq-sim", "design_ref": "DESIGN.md section 4, C02",
+            "technique": "runtime monitoring: bounded-progress oracle in virtual time (application-future tracker, stall detector, failure-report deadline) over fault-injected simulations incl. an enumerated set of permanent blackhole points",
+            "text": "Unbounded liveness is restated as bounded progress in virtual time and decided on observed executions: after a finite fault period every operation must succeed and every finished stream complete; after a permanent blackhole (enumerated after datagram #k per direction) both endpoints must report failure within max(idle, 3 PTO); no application future may be pending at the deadline and the deterministic executor must never stall. All five blocking kinds are observed in every run of the check.",
+            "note": _SIM_NOTE},
     "C03": {"engine": "vq-sim", "design_ref": "DESIGN.md section 4, C03",
             "technique": "runtime monitoring: online limit oracle over cleartext TX/RX taps",
             "text": "Every STREAM and RESET_STREAM frame an endpoint encodes is checked against the largest stream, connection and stream-count limits its RX tap has shown it so far (transport parameters + MAX_* frames), in seeded executions biased to tiny/odd limits; hundreds of thousands of frames land exactly on a limit per run.",
@@ -29,6 +33,10 @@ META = {
     "C09": {"engine": "vq-sim", "design_ref": "DESIGN.md section 4, C09",
             "technique": "runtime monitoring: loss-declaration oracle over recovery events + conservation check at the congestion-controller interface",
             "text": "Every packet_lost event is justified against RFC 9002 6.1 from the monitor's own record of send times, acknowledged ranges and RTT metrics (1 ms timer granularity allowed); every sent packet resolves at most once; bytes_in_flight equals sent-acked-lost-discarded after every controller call; RTT estimates stay within the range of samples.",
+            "note": _SIM_NOTE},
+    "C11": {"engine": "vq-sim", "design_ref": "DESIGN.md section 4, C11",
+            "technique": "runtime monitoring: byte-accounting oracle on the network tap (it is the network) + raw-socket probes",
+            "text": "Per client address the tap counts bytes delivered to and emitted by the server until the server authenticates a Handshake packet (or a Retry token returns) and checks the 3x rule at the start of every server datagram; replies to 2000+ datagrams that belong to no connection are checked for size (stateless reset strictly smaller, observed margin 1 byte), kind (VN only for >= 1200 bytes, never to VN) and count; every client Initial datagram is checked for 1200-byte padding. Handshake drop positions are enumerated.",
             "note": _SIM_NOTE},
     "C12": {"engine": "vq-sim", "design_ref": "DESIGN.md section 4, C12",
             "technique": "runtime monitoring: per-stream self-consistency oracle over the cleartext TX tap + network tap for close behaviour",
